@@ -47,8 +47,14 @@ Definition hp_new (required base total max_size : N) : res unit hprefix :=
 
 Inductive hp_err := HInvalidBase.
 
+(* `x as isize` of a usize (two's complement reinterpretation) and the range of a checked isize result *)
+Definition as_isize (x : N) : Z := if x <? 2 ^ 63 then Z.of_N x else (Z.of_N x - 2 ^ 64)%Z.
+Definition isize_fits (z : Z) : bool := ((- 2 ^ 63 <=? z) && (z <? 2 ^ 63))%Z.
+
 (* HeaderPrefix::get.  usize arithmetic on values read from the wire is checked (overflow-checks on):
-   2203 = `% 0`, 2204 = addition overflow, 2205 = `insert_count + total_inserted - wrapped` underflows *)
+   2203 = `% 0`, 2204 = addition overflow, 2205 = `insert_count + total_inserted - wrapped` underflows,
+   2206 = the payload of the error, `required as isize - self.delta_base as isize - 1`, leaves the isize range
+   (a Delta Base of 2^63 and more with the sign bit set: the cast makes it negative) *)
 Definition hp_get (p : hprefix) (total max_size : N) : res hp_err (N * N) :=
   if max_size =? 0 then Ok (0, 0)
   else
@@ -77,6 +83,8 @@ Definition hp_get (p : hprefix) (total max_size : N) : res hp_err (N * N) :=
         else if negb (hp_sign p) then
           (if usize_lim <=? required + hp_delta p then Panic 2204 else Ok (required, required + hp_delta p))
         else if usize_lim <=? hp_delta p + 1 then Panic 2204
-        else if required <? hp_delta p + 1 then Err HInvalidBase
+        else if required <? hp_delta p + 1 then
+          let d := (as_isize required - as_isize (hp_delta p))%Z in
+          if isize_fits d && isize_fits (d - 1) then Err HInvalidBase else Panic 2206
         else Ok (required, required - hp_delta p - 1)
     end.
